@@ -5,6 +5,8 @@ CONSTANTS
   ReadDrops = {}
   ReReadKeys = {}
   InsertNewTagStoresChars = FALSE
+  NonAtomicRead = FALSE
+  QReadBindsDbFirst = FALSE
   ShallowCopy = FALSE
   SrcSteps = 0
   Emit = FALSE
